@@ -54,26 +54,26 @@ func (c *errflowCfg) sinkOnly() *errflowCfg {
 
 // wrapCallees: calls that return a value carrying their error argument.
 var wrapCallees = map[string]bool{
-	"fmt.Errorf":  true,
-	"fmt.Sprintf": true,
-	"fmt.Sprint":  true,
-	"github.com/getlantern/errors.New":                         true,
-	"github.com/getlantern/errors.Wrap":                        true,
-	"invoke (github.com/getlantern/golog.Logger).Errorf":       true,
-	"invoke (github.com/getlantern/golog.Logger).Error":        true,
-	"invoke (error).Error":                                     true,
-	"errors.New":                                               true,
-	"(*github.com/getlantern/errors.structured).Error":         true,
-	"invoke (github.com/getlantern/errors.Error).Error":        true,
-	"google.golang.org/grpc/status.Errorf":                     true,
-	"google.golang.org/grpc.Errorf":                            true,
+	"fmt.Errorf":                        true,
+	"fmt.Sprintf":                       true,
+	"fmt.Sprint":                        true,
+	"github.com/getlantern/errors.New":  true,
+	"github.com/getlantern/errors.Wrap": true,
+	"invoke (github.com/getlantern/golog.Logger).Errorf": true,
+	"invoke (github.com/getlantern/golog.Logger).Error":  true,
+	"invoke (error).Error":                               true,
+	"errors.New":                                         true,
+	"(*github.com/getlantern/errors.structured).Error":   true,
+	"invoke (github.com/getlantern/errors.Error).Error":  true,
+	"google.golang.org/grpc/status.Errorf":               true,
+	"google.golang.org/grpc.Errorf":                      true,
 }
 
 // nonNilErrCallees: calls whose error result is never nil.
 var nonNilErrCallees = map[string]bool{
-	"fmt.Errorf": true,
-	"errors.New": true,
-	"github.com/getlantern/errors.New":                   true,
+	"fmt.Errorf":                       true,
+	"errors.New":                       true,
+	"github.com/getlantern/errors.New": true,
 	"invoke (github.com/getlantern/golog.Logger).Errorf": true,
 	"invoke (github.com/getlantern/golog.Logger).Error":  true,
 	"google.golang.org/grpc/status.Errorf":               true,
@@ -193,9 +193,9 @@ func errflowFromEdge(P *Prog, from, to *ssa.BasicBlock, cfg *errflowCfg) efResul
 
 func errflowCore(P *Prog, fn *ssa.Function, def ssa.Instruction, startBlock *ssa.BasicBlock, startIdx int, start carrierSet, cfg *errflowCfg, depth int) efResult {
 	type state struct {
-		b    *ssa.BasicBlock
-		from int // index in b.Instrs to start at
-		car  carrierSet
+		b     *ssa.BasicBlock
+		from  int // index in b.Instrs to start at
+		car   carrierSet
 		trail []string
 	}
 	visited := map[string]bool{}
